@@ -205,6 +205,10 @@ theorem max_repetitions_policy (m : Int) (hm : m ≠ 0) (dflt : Int) :
     Py.effectiveMaxRep (some m) dflt = m ∧ Py.effectiveMaxRep none dflt = dflt := by
   simp [Py.effectiveMaxRep, hm]
 
+/-- **C03.max_repetitions_zero**: an explicit 0 is "not given": the session default goes on the wire -/
+theorem max_repetitions_zero (dflt : Int) : Py.effectiveMaxRep (some 0) dflt = dflt := by
+  simp [Py.effectiveMaxRep]
+
 /-! ## v3 -/
 
 /-- the message a v3 call denotes for a session without privacy: the session's credentials and
